@@ -274,6 +274,8 @@ def obligations(tier, seed):
         obs.append(make_append("then-empty", kind, [[S("ONE", 3, "ml")], [S("EMPTY", 0, "ml")]], full=-1, allsym=2, native=(kind == "dsk")))
         if kind == "dsk":
             obs.append(make_append("granule-edge", kind, [[S("ONE", 2294, "ml")], [S("TWO", 2300, "ml")]]))
+            obs.append(make_append("trailer-edge", kind, [[S("ONE", 2296, "ml")], [S("TWO", 100, "ml")], [S("THREE", 2298, "ml")]]))
+            obs.append(make_append("trailer-edge2", kind, [[S("ONE", 4600, "ml"), S("TWO", 2295, "ml")], [S("THREE", 50, "ml")]]))
             obs.append(make_append("basic+ascii", kind, [[S("BAS", 20, "basic", ext="BAS")], [S("TXT", 30, "ascii", ext="TXT")]]))
         else:
             obs.append(make_append("types", kind, [[S("BAS", 20, "basic")], [S("DAT", 30, "data")], [S("SYM", 4, "sym")]]))
